@@ -117,16 +117,20 @@ structure OrdLeaves (α : Type) where
 def clampDet (o : OrdLeaves α) (d s0 : α) : α :=
   if o.ltZero d && o.le (-d) ((two*two) * o.eps * s0 * s0) then zero else d
 
-/-- `sqrt(h)`: `d = det h` (clamped); `root_det = sqrt(d); scalar = sqrt(0.5*(s0+root_det));
-if (scalar == 0) return 0; return (scalar, vector/(2*scalar))` -/
-def sqrtH (sqrtFn : α → R α) (o : OrdLeaves α) (h : Quat α) : R (Quat α) := do
-  let rootDet ← sqrtFn (clampDet o (detH h) h.s0)
+/-- `sqrt(h)` with the computed determinant as an explicit argument (so that theorems can
+quantify over every value the floating-point subtraction might produce): `d` clamped;
+`root_det = sqrt(d); scalar = sqrt(0.5*(s0+root_det)); if (scalar == 0) return 0;
+return (scalar, vector/(2*scalar))` -/
+def sqrtHWith (sqrtFn : α → R α) (o : OrdLeaves α) (dComputed : α) (h : Quat α) : R (Quat α) := do
+  let rootDet ← sqrtFn (clampDet o dComputed h.s0)
   let scalar ← sqrtFn (half * (h.s0 + rootDet))
   if Arith.eq0 scalar then
     pure (ofScalar zero)
   else
     let d := two * scalar
     pure ⟨scalar, h.s1 / d, h.s2 / d, h.s3 / d⟩
+/-- `sqrt(Quaternion<T,Hermitian>)`: the determinant is `det(h)` -/
+def sqrtH (sqrtFn : α → R α) (o : OrdLeaves α) (h : Quat α) : R (Quat α) := sqrtHWith sqrtFn o (detH h) h
 
 /-- `eigen(q)`: `p = norm(vector)`; identity when `p == 0`; otherwise two branches selected by
 `q.s1 < 0 && q.s0 != 0`; in the second branch `p + s1` is evaluated as `(s2²+s3²)/(p-s1)` when
